@@ -63,6 +63,30 @@ pub fn cmd_verify(arg: &str) -> String {
     }
 }
 
+/// verifyseq <pk> <op,op,...> with op = u:<hex> | v:<sighex> : ONE MsgVerifier object through the whole
+/// sequence; prints the answer of every verify call
+pub fn cmd_verifyseq(arg: &str) -> String {
+    let p: Vec<&str> = arg.trim().split(' ').collect();
+    let pk = unhex(p[0]);
+    let ops: Vec<String> = p[1].split(',').map(|s| s.to_string()).collect();
+    let r = guarded(move || {
+        let mut v = MsgVerifier::new(&pk);
+        let mut out = Vec::new();
+        for o in &ops {
+            if let Some(d) = o.strip_prefix("u:") {
+                v.update(&unhex(d));
+            } else if let Some(sg) = o.strip_prefix("v:") {
+                out.push(if v.verify(&unhex(sg)) { "1" } else { "0" });
+            }
+        }
+        out.join(",")
+    });
+    match r {
+        None => "PANIC".into(),
+        Some(s) => format!("OK {}", s),
+    }
+}
+
 pub fn cmd_edsign(arg: &str) -> String {
     let p: Vec<&str> = arg.trim().split(' ').collect();
     match oneshot_sign(&unhex(p[0]), &unhex(p.get(1).copied().unwrap_or("-"))) {
